@@ -111,6 +111,7 @@ struct Meta
 {
   std::string fam, shape;
   double fscale = 1;  // magnitude of the terms summed in one residual evaluation (rounding scale of f)
+  double w      = 1;  // weight the residual is multiplied with (units of f; the minimiser does not depend on it)
   Known known;
 };
 
@@ -127,7 +128,7 @@ static void run_problem(const Meta & m, const F & f, StratBox & sb, bool fresh, 
     vh::Ev e;
     e.str("op", "begin").num("run", g_run).str("fam", m.fam).str("shape", m.shape).str("mode", mode_name(D));
     e.str("strat", sb.kind).num("sid", sb.sid).num("fresh", fresh ? 1 : 0).dbl("delta0", sb.p->get_delta());
-    e.num("max_iter", o.max_iter).dbl("ftol", o.ftol).dbl("ptol", o.ptol).dbl("fscale", m.fscale);
+    e.num("max_iter", o.max_iter).dbl("ftol", o.ftol).dbl("ptol", o.ptol).dbl("fscale", m.fscale).dbl("w", m.w);
     e.str("known", m.known.kind);
     if (m.known.kind == "lin") {
       e.mat("A", m.known.A).vec("b", m.known.b);
@@ -231,8 +232,9 @@ struct LinMulti
 enum LinKind { LIN_GENERIC = 0, LIN_CONSISTENT, LIN_INT_AT_MIN, LIN_DEPENDENT, LIN_ZEROCOL };
 
 // A (m x n), b, start, and whether the minimiser is unique
-static void make_linear(vh::Rng & rng, int m, int n, int kind, MatrixXd & A, VectorXd & b, VectorXd & x0, bool & unique, double & fscale)
+static void make_linear(vh::Rng & rng, int m, int n, int kind, MatrixXd & A, VectorXd & b, VectorXd & x0, bool & unique, double & fscale, double & w)
 {
+  if (kind == LIN_INT_AT_MIN) w = 1;  // keeps b = A x* exact (zero residual at the start)
   A.resize(m, n);
   b.resize(m);
   x0.resize(n);
@@ -264,6 +266,8 @@ static void make_linear(vh::Rng & rng, int m, int n, int kind, MatrixXd & A, Vec
       unique = false;
     }
   }
+  A *= w;  // residual w (A x - b): same minimiser
+  b *= w;
   fscale = A.cwiseAbs().maxCoeff() * n * std::max(1., std::max(x0.cwiseAbs().maxCoeff(), 10.)) + b.cwiseAbs().maxCoeff();
 }
 
@@ -283,66 +287,70 @@ static Known known_lin(const MatrixXd & A, const VectorXd & b, bool unique)
 template<int NP>
 struct AlignSO3
 {
+  double w = 1.;
   std::array<Eigen::Vector3d, NP> a, b;
   Eigen::Matrix<double, 3 * NP, 1> operator()(const smooth::SO3d & R) const
   {
     Eigen::Matrix<double, 3 * NP, 1> r;
     for (int i = 0; i < NP; ++i) r.template segment<3>(3 * i) = R * a[i] - b[i];
-    return r;
+    return (w * r).eval();
   }
   Eigen::Matrix<double, 3 * NP, 3> jacobian(const smooth::SO3d & R) const
   {
     Eigen::Matrix<double, 3 * NP, 3> J;
     for (int i = 0; i < NP; ++i) J.template middleRows<3>(3 * i) = R.dr_action(a[i]);
-    return J;
+    return (w * J).eval();
   }
 };
 
 template<int NP>
 struct AlignSE2
 {
+  double w = 1.;
   std::array<Eigen::Vector2d, NP> a, b;
   Eigen::Matrix<double, 2 * NP, 1> operator()(const smooth::SE2d & g) const
   {
     Eigen::Matrix<double, 2 * NP, 1> r;
     for (int i = 0; i < NP; ++i) r.template segment<2>(2 * i) = g * a[i] - b[i];
-    return r;
+    return (w * r).eval();
   }
   Eigen::Matrix<double, 2 * NP, 3> jacobian(const smooth::SE2d & g) const
   {
     Eigen::Matrix<double, 2 * NP, 3> J;
     for (int i = 0; i < NP; ++i) J.template middleRows<2>(2 * i) = g.dr_action(a[i]);
-    return J;
+    return (w * J).eval();
   }
 };
 
 struct AlignSE3Dyn
 {
+  double w = 1.;
   std::vector<Eigen::Vector3d> a, b;
   VectorXd operator()(const smooth::SE3d & g) const
   {
     VectorXd r(3 * a.size());
     for (std::size_t i = 0; i < a.size(); ++i) r.segment<3>(3 * i) = g * a[i] - b[i];
-    return r;
+    return (w * r).eval();
   }
   MatrixXd jacobian(const smooth::SE3d & g) const
   {
     MatrixXd J(3 * a.size(), 6);
     for (std::size_t i = 0; i < a.size(); ++i) J.middleRows<3>(3 * i) = g.dr_action(a[i]);
-    return J;
+    return (w * J).eval();
   }
 };
 
 // pose alignment: (g * h_i) - k_i
 struct PoseSE3
 {
+  double w = 1.;
   std::vector<smooth::SE3d> h, k;
   std::vector<Eigen::Matrix<double, 6, 1>> noise;
   VectorXd operator()(const smooth::SE3d & g) const
   {
     VectorXd r(6 * h.size());
     for (std::size_t i = 0; i < h.size(); ++i) r.segment<6>(6 * i) = ((g * h[i]) - k[i]) - noise[i];
-    return r;
+    return (w * r).eval();
   }
   MatrixXd jacobian(const smooth::SE3d & g) const
   {
@@ -351,7 +359,7 @@ struct PoseSE3
       const Eigen::Matrix<double, 6, 1> e = (g * h[i]) - k[i];
       J.middleRows<6>(6 * i)              = smooth::SE3d::dr_expinv(e) * h[i].inverse().Ad();
     }
-    return J;
+    return (w * J).eval();
   }
 };
 
@@ -359,12 +367,13 @@ using BundleRt = smooth::Bundle<smooth::SO3d, Eigen::Vector3d>;
 
 struct AlignBundle
 {
+  double w = 1.;
   std::array<Eigen::Vector3d, 4> a, b;
   Eigen::Matrix<double, 12, 1> operator()(const BundleRt & x) const
   {
     Eigen::Matrix<double, 12, 1> r;
     for (int i = 0; i < 4; ++i) r.segment<3>(3 * i) = x.part<0>() * a[i] + x.part<1>() - b[i];
-    return r;
+    return (w * r).eval();
   }
   Eigen::Matrix<double, 12, 6> jacobian(const BundleRt & x) const
   {
@@ -373,19 +382,20 @@ struct AlignBundle
       J.block<3, 3>(3 * i, 0) = x.part<0>().dr_action(a[i]);
       J.block<3, 3>(3 * i, 3).setIdentity();
     }
-    return J;
+    return (w * J).eval();
   }
 };
 
 // two arguments of different manifold types
 struct AlignRt
 {
+  double w = 1.;
   std::array<Eigen::Vector3d, 4> a, b;
   Eigen::Matrix<double, 12, 1> operator()(const smooth::SO3d & R, const Eigen::Vector3d & t) const
   {
     Eigen::Matrix<double, 12, 1> r;
     for (int i = 0; i < 4; ++i) r.segment<3>(3 * i) = R * a[i] + t - b[i];
-    return r;
+    return (w * r).eval();
   }
   Eigen::Matrix<double, 12, 6> jacobian(const smooth::SO3d & R, const Eigen::Vector3d &) const
   {
@@ -394,13 +404,14 @@ struct AlignRt
       J.block<3, 3>(3 * i, 0) = R.dr_action(a[i]);
       J.block<3, 3>(3 * i, 3).setIdentity();
     }
-    return J;
+    return (w * J).eval();
   }
 };
 
 // three rotations chained by relative measurements, sparse Jacobian (the shape of the repository's AnalyticSparse test)
 struct ChainSO3
 {
+  double w = 1.;
   Eigen::Vector3d d23, d31;
   VectorXd operator()(const smooth::SO3d & g1, const smooth::SO3d & g2, const smooth::SO3d & g3) const
   {
@@ -408,7 +419,7 @@ struct ChainSO3
     f.segment<3>(0) = g1.log();
     f.segment<3>(3) = (g3 - g2) - d23;
     f.segment<3>(6) = (g1 - g3) - d31;
-    return f;
+    return (w * f).eval();
   }
   Eigen::SparseMatrix<double> jacobian(const smooth::SO3d & g1, const smooth::SO3d & g2, const smooth::SO3d & g3) const
   {
@@ -426,6 +437,7 @@ struct ChainSO3
         J.insert(6 + i, 6 + j) = j33(i, j);
         J.insert(6 + i, 0 + j) = j31(i, j);
       }
+    J *= w;
     J.makeCompressed();
     return J;
   }
@@ -527,6 +539,29 @@ struct Misra1aStatic
 // ----------------------------------------------------------------------------- plans
 
 static const long MAXIT[5]  = {0, 1, 2, 5, 1000};
+static const double WEIGHTS[4] = {1., 1e-2, 1e-3, 1e-4};
+
+// residual weight of run k of a family: the four judged strata come round; `tiny` (a few runs of the point-alignment
+// families) selects the stratum w <= 1e-6 in which the Ptol test |D dx| < ptol n is known not to be unit-invariant
+static double weight_of(long k, int fam, bool tiny_family)
+{
+  if (tiny_family && k % 40 == 5) return (fam + k / 40) % 2 == 0 ? 1e-6 : 1e-8;
+  return WEIGHTS[(k + k / 4 + fam) % 4];  // k / 4: decorrelated from the start-radius cycle (k % 4)
+}
+
+// The Ptol test |D dx| < ptol n is not invariant to the units of f (D = column norms of J): what matters is ptol / w.
+// Judged strata keep ptol / w <= 1e-2 (ptol = 1e-3 only with w = 1); the few tiny-weight runs use the default
+// tolerances 1e-6, i.e. ptol / w >= 1 (the stratum in which a premature Ptol is a known finding).
+static void adapt_tolerances(Opt & o, double w)
+{
+  if (w < 1e-5) {
+    o.max_iter = 1000;
+    o.ftol     = 1e-6;
+    o.ptol     = 1e-6;
+  } else if (w < 1. && o.ptol > 1e-5) {
+    o.ptol = 1e-6;
+  }
+}
 static const double TOLS[3] = {1e-3, 1e-6, 1e-12};
 
 // options of run number k of a family: every max_iter value and every tolerance pair comes round;
@@ -561,12 +596,15 @@ static void run_family(int fam, long k, vh::Rng & rng, StratBox & sb, bool fresh
   Meta m;
   m.fam = FAMS[fam];
 #if VH_PART == 0
-  const Opt o = options(rng, k, fam, fam != 5);
+  Opt o = options(rng, k, fam, fam != 5);
+  m.w   = weight_of(k, fam, false);
+  if (k % 3 == LIN_INT_AT_MIN && fam != 5) m.w = 1;
+  adapt_tolerances(o, m.w);
   if (fam == 0) {
     MatrixXd A;
     VectorXd b, x0;
     bool uq;
-    make_linear(rng, 6, 3, static_cast<int>(k % 3), A, b, x0, uq, m.fscale);
+    make_linear(rng, 6, 3, static_cast<int>(k % 3), A, b, x0, uq, m.fscale, m.w);
     LinStatic<6, 3> f{A, b};
     Eigen::Vector3d x = x0;
     m.shape           = "static";
@@ -577,7 +615,7 @@ static void run_family(int fam, long k, vh::Rng & rng, StratBox & sb, bool fresh
     MatrixXd A;
     VectorXd b, x0;
     bool uq;
-    make_linear(rng, mm, n, static_cast<int>(k % 3), A, b, x0, uq, m.fscale);
+    make_linear(rng, mm, n, static_cast<int>(k % 3), A, b, x0, uq, m.fscale, m.w);
     LinDynamic f{A, b};
     VectorXd x = x0;
     m.shape    = "dynamic";
@@ -588,7 +626,7 @@ static void run_family(int fam, long k, vh::Rng & rng, StratBox & sb, bool fresh
     MatrixXd A;
     VectorXd b, x0;
     bool uq;
-    make_linear(rng, mm, n, static_cast<int>(k % 3), A, b, x0, uq, m.fscale);
+    make_linear(rng, mm, n, static_cast<int>(k % 3), A, b, x0, uq, m.fscale, m.w);
     // banded sparsity (kept well conditioned by the diagonal boost)
     for (int i = 0; i < mm; ++i)
       for (int j = 0; j < n; ++j)
@@ -610,7 +648,7 @@ static void run_family(int fam, long k, vh::Rng & rng, StratBox & sb, bool fresh
     MatrixXd A;
     VectorXd b, x0;
     bool uq;
-    make_linear(rng, mm, n, static_cast<int>(k % 3), A, b, x0, uq, m.fscale);
+    make_linear(rng, mm, n, static_cast<int>(k % 3), A, b, x0, uq, m.fscale, m.w);
     LinMulti f{A, b};
     Eigen::Vector2d x1 = x0.head<2>();
     VectorXd x2        = x0.tail(n2);
@@ -621,7 +659,7 @@ static void run_family(int fam, long k, vh::Rng & rng, StratBox & sb, bool fresh
     MatrixXd A;
     VectorXd b, x0;
     bool uq;
-    make_linear(rng, 2, 1, static_cast<int>(k % 3), A, b, x0, uq, m.fscale);
+    make_linear(rng, 2, 1, static_cast<int>(k % 3), A, b, x0, uq, m.fscale, m.w);
     LinStatic<2, 1> f{A, b};
     Eigen::Matrix<double, 1, 1> x = x0;
     m.shape                       = "static";
@@ -632,7 +670,7 @@ static void run_family(int fam, long k, vh::Rng & rng, StratBox & sb, bool fresh
     MatrixXd A;
     VectorXd b, x0;
     bool uq;
-    make_linear(rng, mm, n, k % 2 == 0 ? LIN_DEPENDENT : LIN_ZEROCOL, A, b, x0, uq, m.fscale);
+    make_linear(rng, mm, n, k % 2 == 0 ? LIN_DEPENDENT : LIN_ZEROCOL, A, b, x0, uq, m.fscale, m.w);
     LinDynamic f{A, b};
     VectorXd x = x0;
     m.shape    = "dynamic";
@@ -640,16 +678,20 @@ static void run_family(int fam, long k, vh::Rng & rng, StratBox & sb, bool fresh
     run_mode(mode, m, f, sb, fresh, o, x);
   }
 #elif VH_PART == 1
-  const Opt o        = options(rng, k, fam, true);
-  const double rad   = start_radius(rng, static_cast<int>(k));
-  const double noise = (k / 4) % 2 == 0 ? 0. : 1e-7;
+  Opt o = options(rng, k, fam, true);
+  m.w   = weight_of(k, fam, fam <= 1);
+  adapt_tolerances(o, m.w);
+  const bool tiny    = m.w < 1e-5;
+  const double rad   = tiny ? 0.3 : start_radius(rng, static_cast<int>(k));
+  const double noise = (k / 4) % 2 == 0 || tiny ? 0. : 1e-7;
   m.known.kind       = "grp";
   m.known.slack      = noise == 0. ? 1e-9 : 1e-5;
-  m.fscale           = 8.;
+  m.fscale           = 8. * m.w;
   if (fam == 0) {
     smooth::SO3d gt;
     gt.setRandom();
     AlignSO3<4> f;
+    f.w = m.w;
     for (int i = 0; i < 4; ++i) {
       f.a[i] = spread_point(rng, i);
       f.b[i] = gt * f.a[i] + rvec3(rng, noise);
@@ -664,6 +706,7 @@ static void run_family(int fam, long k, vh::Rng & rng, StratBox & sb, bool fresh
     smooth::SE2d gt;
     gt.setRandom();
     AlignSE2<4> f;
+    f.w = m.w;
     for (int i = 0; i < 4; ++i) {
       f.a[i] = spread_point(rng, i).head<2>() + Eigen::Vector2d(0.2 * i, -0.1 * i);
       f.b[i] = gt * f.a[i] + rvec3(rng, noise).head<2>();
@@ -679,6 +722,7 @@ static void run_family(int fam, long k, vh::Rng & rng, StratBox & sb, bool fresh
     Rt.setRandom();
     const Eigen::Vector3d tt = rvec3(rng, 2.);
     AlignRt f;
+    f.w = m.w;
     for (int i = 0; i < 4; ++i) {
       f.a[i] = spread_point(rng, i);
       f.b[i] = Rt * f.a[i] + tt + rvec3(rng, noise);
@@ -701,6 +745,7 @@ static void run_family(int fam, long k, vh::Rng & rng, StratBox & sb, bool fresh
     const Eigen::Vector3d tt = rvec3(rng, 2.);
     const BundleRt gt(Rt, tt);
     AlignBundle f;
+    f.w = m.w;
     for (int i = 0; i < 4; ++i) {
       f.a[i] = spread_point(rng, i);
       f.b[i] = gt.part<0>() * f.a[i] + gt.part<1>() + rvec3(rng, noise);
@@ -713,16 +758,19 @@ static void run_family(int fam, long k, vh::Rng & rng, StratBox & sb, bool fresh
     run_mode(mode, m, f, sb, fresh, o, x);
   }
 #elif VH_PART == 2
-  const Opt o        = options(rng, k, fam, true);
+  Opt o = options(rng, k, fam, true);
+  m.w   = weight_of(k, fam, false);
+  adapt_tolerances(o, m.w);
   const double rad   = start_radius(rng, static_cast<int>(k));
   const double noise = (k / 4) % 2 == 0 ? 0. : 1e-7;
   m.known.kind       = "grp";
   m.known.slack      = noise == 0. ? 1e-9 : 1e-5;
-  m.fscale           = 8.;
+  m.fscale           = 8. * m.w;
   if (fam == 0) {
     smooth::SE3d gt;
     gt.setRandom();
     AlignSE3Dyn f;
+    f.w = m.w;
     const int np = 4 + rng.idx(3);
     for (int i = 0; i < np; ++i) {
       f.a.push_back(spread_point(rng, i));
@@ -738,6 +786,7 @@ static void run_family(int fam, long k, vh::Rng & rng, StratBox & sb, bool fresh
     smooth::SE3d gt;
     gt.setRandom();
     PoseSE3 f;
+    f.w = m.w;
     for (int i = 0; i < 3; ++i) {
       smooth::SE3d h;
       h.setRandom();
@@ -752,7 +801,6 @@ static void run_family(int fam, long k, vh::Rng & rng, StratBox & sb, bool fresh
     m.shape    = "dynamic";
     m.known.g  = "{\"k\":\"SE3\"}";
     m.known.xt = coeff_vec(gt);
-    m.fscale   = 8.;
     run_mode(mode, m, f, sb, fresh, o, x);
   } else {
     // generating elements g1 = identity, g2, g3 ; the measurements are their library differences
@@ -760,6 +808,7 @@ static void run_family(int fam, long k, vh::Rng & rng, StratBox & sb, bool fresh
     g3t = g1t + rtan<3>(rng, rng.uni(0.2, 1.0));
     g2t = g3t + rtan<3>(rng, rng.uni(0.2, 1.0));
     ChainSO3 f;
+    f.w = m.w;
     f.d23 = (g3t - g2t) + rvec3(rng, noise);
     f.d31 = (g1t - g3t) + rvec3(rng, noise);
     const double r3 = std::min(rad, 0.5);
@@ -774,7 +823,7 @@ static void run_family(int fam, long k, vh::Rng & rng, StratBox & sb, bool fresh
     m.known.xt = coeff_vec(g1t);
     coeffs_of(m.known.xt, g2t);
     coeffs_of(m.known.xt, g3t);
-    m.fscale = 4.;
+    m.fscale = 4. * m.w;
     // modes: Analytic / Default use the sparse Jacobian, Numerical a dense one
     run_mode(mode, m, f, sb, fresh, o, g1, g2, g3);
   }
